@@ -104,7 +104,7 @@ def run(fn, deprecated):
 
 
 def make_plain_step(nops, deprecated, fsh=None, fp=None):
-    def h(sh: int, p: bool, t: bool, f: bool, tgt0: bool, v0: int, op1: int, v1: int, op2: int, v2: int, op3: int, v3: int) -> str:
+    def h(sh: int, p: bool, t: bool, f: bool, tgt0: bool, v0: int, op1: int, v1: int, op2: int, v2: int, op3: int, v3: int, z1: bool, z2: bool) -> str:
         if fsh is None:
             assume(0 <= sh <= 3)
             cfg = (pick([0, 1, 2, 3], sh), bool(p), bool(t), bool(f), deprecated)
@@ -121,8 +121,10 @@ def make_plain_step(nops, deprecated, fsh=None, fp=None):
             acc.set(o, v0)
             target = [v0, True]
         trace = []
-        for op, v in [(op1, v1), (op2, v2), (op3, v3)][:nops]:
+        for op, v, z in [(op1, v1, z1), (op2, v2, z2), (op3, v3, False)][:nops]:
             assume(0 <= op <= 6)
+            if op == 1 and z and not transform:
+                v = None  # a local / forwarded assignment of None is an assignment like any other
             tag = f"C18/plain/{['read','write','delete','target-write','target-delete','deepcopy-read','read-twice'][op]}"
             trace.append((tag.rsplit("/", 1)[1], cfg))
             nwarn = 0
@@ -289,11 +291,11 @@ def obligations(tier):
     obs = []
     nops = 2 if tier == "quick" else 3
     T = 240 if tier == "quick" else 1500
-    warm = [(sh, p, t, f, tg, 5, a, 7, b, 9, 0, 1) for sh in range(4) for p in (False, True) for t in (False, True) for f in (False, True) for tg in (False, True) for a in (0, 1, 2) for b in (0, 2, 4, 6)]
+    warm = [(sh, p, t, f, tg, 5, a, 7, b, 9, 0, 1, a == 1, False) for sh in range(4) for p in (False, True) for t in (False, True) for f in (False, True) for tg in (False, True) for a in (0, 1, 2) for b in (0, 2, 4, 6)]
     for dep, fsh, fp in [(d, s_, p_) for d in (False, True) for s_ in range(4) for p_ in (False, True)]:
         if tier == "quick" and dep and fsh in (1, 3):
             continue
-        obs.append(Ob(f"C18.plain.{'deprecated' if dep else 'alias'}.shape{fsh}.{'passthrough' if fp else 'local'}.h{nops}", make_plain_step(nops, dep, fsh, fp), warm[:: (3 if not dep else 7)], f"plain class; {'DeprecatedAlias' if dep else 'Alias'}; path shape {SHAPES[fsh]!r}, passthrough={fp}; transform, fallback symbolic; initial target present/missing symbolic; history of {nops} operations from {{read, write v, delete, write target, delete target, deepcopy+read, read twice}} with symbolic selectors and int values", expect={"ok"}, timeout=T))
+        obs.append(Ob(f"C18.plain.{'deprecated' if dep else 'alias'}.shape{fsh}.{'passthrough' if fp else 'local'}.h{nops}", make_plain_step(nops, dep, fsh, fp), warm[:: (3 if not dep else 7)], f"plain class; {'DeprecatedAlias' if dep else 'Alias'}; path shape {SHAPES[fsh]!r}, passthrough={fp}; transform, fallback symbolic; initial target present/missing symbolic; history of {nops} operations from {{read, write v, delete, write target, delete target, deepcopy+read, read twice}} with symbolic selectors and values (ints, or None by a symbolic flag)", expect={"ok"}, timeout=T))
     warm_s = [(p, t, f, tg, 5, a, 7, b, 9) for p in (False, True) for t in (False, True) for f in (False, True) for tg in (False, True) for a in range(7) for b in (0, 3)]
     obs.append(Ob(f"C18.spec.h2", make_spec_step(2), warm_s, "spec class with al: int = Alias('t', ...) (managed, type-checked); passthrough, transform, fallback symbolic; history of 2 operations from {read, write, delete, with_al, with_t, deepcopy, ill-typed write}", expect={"ok"}, timeout=T))
     return obs
